@@ -1,12 +1,17 @@
 package checks
 
 import (
+	"bytes"
+	"compress/gzip"
+	"compress/zlib"
 	"encoding/hex"
 	"encoding/json"
 	"fmt"
+	"io"
 	"net/url"
 	"sort"
 	"strings"
+	"sync"
 
 	"github.com/ja7ad/otp/verifharness/ref"
 )
@@ -20,6 +25,8 @@ type rreq struct {
 	Raw    *string        `json:"raw_body,omitempty"`
 	// Headers are request header fields sent besides Host / Content-Type / Content-Length ("" = sent with an empty value)
 	Headers map[string]string `json:"headers,omitempty"`
+	// Packed, if set, is the body: compressed bytes generated from a description (binary bodies do not survive JSON)
+	Packed *packed `json:"packed_body,omitempty"`
 }
 
 func (q rreq) uri() string {
@@ -29,7 +36,46 @@ func (q rreq) uri() string {
 	return q.Path
 }
 
+// packed describes a compressed request body by what it inflates to: Head + Blanks spaces + Tail.
+type packed struct {
+	Encoding string `json:"encoding"` // "gzip" or "deflate" (zlib framing, RFC 9110)
+	Head     string `json:"head"`
+	Blanks   int    `json:"blanks"`
+	Tail     string `json:"tail"`
+}
+
+var packedCache sync.Map
+
+func (p packed) bytes() []byte {
+	k := fmt.Sprint(p)
+	if b, ok := packedCache.Load(k); ok {
+		return b.([]byte)
+	}
+	var buf bytes.Buffer
+	var w io.WriteCloser
+	if p.Encoding == "gzip" {
+		w, _ = gzip.NewWriterLevel(&buf, gzip.BestCompression)
+	} else {
+		w, _ = zlib.NewWriterLevel(&buf, zlib.BestCompression)
+	}
+	io.WriteString(w, p.Head)
+	chunk := bytes.Repeat([]byte{' '}, 1<<20)
+	for n := p.Blanks; n > 0; n -= len(chunk) {
+		if n < len(chunk) {
+			chunk = chunk[:n]
+		}
+		w.Write(chunk)
+	}
+	io.WriteString(w, p.Tail)
+	w.Close()
+	packedCache.Store(k, buf.Bytes())
+	return buf.Bytes()
+}
+
 func (q rreq) body() []byte {
+	if q.Packed != nil {
+		return q.Packed.bytes()
+	}
 	if q.Raw != nil {
 		return []byte(*q.Raw)
 	}
